@@ -21,7 +21,7 @@ def make_ds(tag, extra_class=False):
     if extra_class: b.add_entities("tag", [f"t{tag}a", f"t{tag}b"])
     return b.build()
 
-def gen_ds(rnd, str_ids=False, sorted_ids=False, attrs=True):
+def gen_ds(rnd, str_ids=False, sorted_ids=False, attrs=True, ts="int"):
     """a dataset whose users and items are registered in several batches (later batches may hold smaller identifiers), with a
     scalar, a list, a dense-vector and a sparse-vector attribute on the items"""
     import scipy.sparse as sps
@@ -32,12 +32,15 @@ def gen_ds(rnd, str_ids=False, sorted_ids=False, attrs=True):
     cut_i = rnd.randint(1, len(items) - 1); cut_u = rnd.randint(1, len(users) - 1)
     for cls, ids, cut in (("item", items, cut_i), ("user", users, cut_u)):
         b.add_entities(cls, [conv(x) for x in ids[:cut]]); b.add_entities(cls, [conv(x) for x in ids[cut:]])
-    rows = [(conv(u), conv(i), float(rnd.randint(1, 5)), rnd.randint(0, 1000)) for u in users for i in items if rnd.random() < 0.55]
-    if not rows: rows = [(conv(users[0]), conv(items[0]), 3.0, 1)]
+    # time stamps: small integers, or date-times at the finest (nanosecond) resolution pandas has by default
+    stamp = (lambda: rnd.randint(0, 1000)) if ts == "int" else (lambda: pd.Timestamp(1_600_000_000_000_000_000 + rnd.randint(0, 10**12)))
+    rows = [(conv(u), conv(i), float(rnd.randint(1, 5)), stamp()) for u in users for i in items if rnd.random() < 0.55]
+    if not rows: rows = [(conv(users[0]), conv(items[0]), 3.0, stamp())]
     b.add_interactions("rating", pd.DataFrame(rows, columns=["user_id", "item_id", "rating", "timestamp"]), entities=["user", "item"], default=True)
     if attrs:
         sub = [conv(x) for x in rnd.sample(items, rnd.randint(1, len(items)))]
         b.add_scalar_attribute("item", "title", sub, [f"t-{x}" for x in sub])
+        if ts != "int": b.add_scalar_attribute("item", "released", sub, pd.to_datetime([1_500_000_000_000_000_000 + rnd.randint(0, 10**12) for _ in sub]))
         b.add_list_attribute("item", "tags", sub, [[f"g{rnd.randint(0, 4)}" for _ in range(rnd.randint(0, 3))] for _ in sub])
         b.add_vector_attribute("item", "emb", sub, np.array([[rnd.randint(-4, 4) / 2 for _ in range(3)] for _ in sub]))
         b.add_vector_attribute("item", "sp", sub, sps.csr_array(np.array([[rnd.choice([0, 0, 1.5, -2.0]) for _ in range(4)] for _ in sub])))
@@ -196,12 +199,12 @@ def gen(rng: random.Random, tier: str):
                "ordered": rng.random() < 0.5, "seed": rng.randrange(10**6), "vocab": rng.choice(["none", "none", "known", "with-unknown"]),
                "nan_scores": rng.random() < 0.15}          # a score field that is NaN for every item (e.g. nothing could be scored)
     for _ in range(n // 2):
-        yield {"kind": "collection", "n": rng.randint(0, 4), "same_fields": rng.random() < 0.6, "seed": rng.randrange(10**6), "dup_keys": rng.random() < 0.35}
+        yield {"kind": "collection", "n": rng.randint(0, 4), "same_fields": rng.random() < 0.6, "seed": rng.randrange(10**6), "dup_keys": rng.random() < 0.35, "batch": rng.choice([None, None, 1, 2, 3])}
     for _ in range(max(4, n // 10)):
         yield {"kind": "dataset", "seed": rng.randrange(10**6), "extra": rng.random() < 0.5, "how": rng.choice(["native", "pickle"])}
     # generated datasets (identifiers registered out of order, integer or string, every attribute layout) and models trained on them
     for j in range(max(6, n // 10)):
-        yield {"kind": "dataset2", "seed": rng.randrange(10**6), "str_ids": rng.random() < 0.35, "how": ["native", "pickle"][j % 2], "sorted_ids": rng.random() < 0.2}
+        yield {"kind": "dataset2", "seed": rng.randrange(10**6), "str_ids": rng.random() < 0.35, "how": ["native", "pickle"][j % 2], "sorted_ids": rng.random() < 0.2, "ts": "ns" if j % 4 in (0, 3) else "int"}
     scorers = ["pop", "pop-rank", "bias", "iknn", "uknn", "als", "ials", "funksvd", "pipeline"]
     for j in range(max(len(scorers), n // 10)):
         yield {"kind": "model", "scorer": scorers[j % len(scorers)], "seed": rng.randrange(10**6), "str_ids": rng.random() < 0.3, "sorted_ids": rng.random() < 0.2}
@@ -308,7 +311,7 @@ def run(case: dict, lean: Lean) -> Outcome:
         want = [(tuple(k), canon(v)) for k, v in ilc.items()]
         tmp = tempfile.mkdtemp(prefix="c15_", dir=WORK)
         try:
-            p = Path(tmp) / "x.parquet"; ilc.save_parquet(p); got = [(tuple(k), canon(v)) for k, v in ItemListCollection.load_parquet(p).items()]
+            p = Path(tmp) / "x.parquet"; ilc.save_parquet(p, **({"batch_size": case["batch"]} if case.get("batch") else {})); got = [(tuple(k), canon(v)) for k, v in ItemListCollection.load_parquet(p).items()]
             if len(got) != len(want): failed.append(f"{len(want)} lists -> {len(got)}")
             for (k1, a), (k2, b) in zip(want, got):
                 if k1 != k2 or not _same(a, b) or a["ordered"] != b["ordered"]: failed.append(f"{k1}: {a} -> {k2}: {b}")
@@ -319,6 +322,7 @@ def run(case: dict, lean: Lean) -> Outcome:
         lens = [len(v) for _, v in ilc.items()]
         mixed = len({tuple(sorted(k for k in c if k not in ("ids", "ordered"))) for _, c in want}) > 1
         if case["n"] == 0: classes.append("empty collection")
+        if case.get("batch") and case["batch"] < len(lens): classes.append("written in several record batches")
         if 0 in lens: classes.append("contains empty list")
         if mixed: classes.append("lists with differing fields")
         if failed and all(("'ordered': False" in f.split(" -> ")[0] and "'ordered': True" in f.split(" -> ")[-1]
@@ -329,7 +333,8 @@ def run(case: dict, lean: Lean) -> Outcome:
         only_empty = all(f.startswith("parquet:") or f.split(": {'ids': []")[0] != f for f in failed)
         if key is None and failed and (case["n"] == 0 or 0 in lens) and only_empty: key = "ItemListCollection.save_parquet: empty collection / empty lists"
     elif kind == "dataset2":
-        ds = gen_ds(rnd, case["str_ids"], case["sorted_ids"]); ob = observe(ds)
+        ds = gen_ds(rnd, case["str_ids"], case["sorted_ids"], ts=case.get("ts", "int")); ob = observe(ds)
+        if case.get("ts", "int") != "int": classes.append("nanosecond date-times")
         ids = [str(x) for x in ds.items.ids()] + [str(x) for x in ds.users.ids()]
         classes.append("generated dataset:" + case["how"])
         if not case["sorted_ids"]: classes.append("identifiers registered out of order")
